@@ -8,6 +8,7 @@
 import GraphiqModel.Proofs.C17BridgePsd
 import GraphiqModel.Proofs.InnerProductHilbert
 import GraphiqModel.Proofs.InvValid
+import GraphiqModel.Proofs.InvHilbert
 namespace Graphiq
 namespace C17B
 open Hilbert Matrix STab
@@ -52,6 +53,25 @@ theorem stabOverlap_eq (a b : Tab) (r : Option Nat) (ga : (STab.ofTab a).Good) (
   have : ((((DM.stabilizerDensity a).mul (DM.stabilizerDensity b)).trace.re : Rat) : ℝ) = ((ipValQ r : Rat) : ℝ) := by
     rw [hre]; simp
   exact_mod_cast this
+
+/-- **the exact overlap is `|⟨ψ_a|ψ_b⟩|²`** for unit vectors with `ρ_a = |ψ_a⟩⟨ψ_a|`, `ρ_b = |ψ_b⟩⟨ψ_b|` -/
+theorem stabOverlap_inner (a b : Tab) (va : a.Valid) (vb : b.Valid) (hn : a.n = b.n) :
+    ∃ ψa ψb : Bits a.n → ℂ,
+      (∑ x, star (ψa x) * ψa x = 1) ∧ (∑ x, star (ψb x) * ψb x = 1) ∧
+      (∀ x y, tabRho a.n a x y = ψa x * star (ψa y)) ∧ (∀ x y, tabRho a.n b x y = ψb x * star (ψb y)) ∧
+      ((DM.stabOverlap a b : Rat) : ℂ) = (∑ x, star (ψa x) * ψb x) * star (∑ x, star (ψa x) * ψb x) := by
+  have ga := ofTab_good_of_valid a va
+  have gb := ofTab_good_of_valid b vb
+  obtain ⟨r, hr⟩ := innerProduct_total_full a b ga gb (ofTab_indep a va) (ofTab_indep b vb) hn
+  obtain ⟨ta, ca, ha, _⟩ := inverseCircuit_of_valid a va
+  obtain ⟨tb, cb, hb, _⟩ := inverseCircuit_of_valid b vb
+  obtain ⟨a1, a2⟩ := rho_rank_one _ ta ca ga ha
+  obtain ⟨b1, b2⟩ := rho_rank_one _ tb cb gb hb
+  have nb : (STab.ofTab b).n = a.n := hn.symm
+  rw [nb] at b1 b2
+  refine ⟨_, _, a2, b2, a1, b1, ?_⟩
+  rw [stabOverlap_eq a b r ga gb hr, ← ipVal_eq]
+  exact (innerProduct_trace a b r ga gb hr).symm.trans (trace_rank_one _ _ _ _ a1 b1)
 
 theorem ipValQ_range (r : Option Nat) : 0 ≤ ipValQ r ∧ ipValQ r ≤ 1 := by
   cases r with
